@@ -76,9 +76,11 @@ def _exc(e):
     return f"{type(e).__name__}: {str(e)[:160]}"
 
 
-def expect_exact(probs, key, label, got, want):
+def expect_exact(probs, key, label, got, want, ravel=False):
     """got: array-like of floats, want: list of [n,d]; exact comparison (D2)."""
     got = np.asarray(got)
+    if ravel:
+        got = got.reshape(-1)
     if got.shape != (len(want),):
         probs.add(key, f"{label}: shape {got.shape}, specification has {len(want)} entries")
         return False
@@ -400,6 +402,7 @@ def vec_inputs(rec):
             data["X"] = np.array([qf(x) for x in rec["X"]], dtype=np.float32)
     if kind == "enc":
         par["et"] = bool(rec["et"])
+        par["norm"] = bool(sum(map(sum, rec["D"])) % 2)  # both target-normalisation branches
         par["bins"] = [qf(b) for b in rec["bins"]]
         nb = len(par["bins"])
         cells = rec["cells"]
@@ -497,15 +500,21 @@ def check_ppo(rec, out, probs, corrupt):
     fl = rec["flat"]
     n = len(fl)
     single = n == 1
-    lkey = "ppo.collect_trajectories:single_transition_squeezed" if single else "ppo.collect_trajectories:layout"
+    lkey = "ppo.collect_trajectories:layout"
+    # the order of the transitions is what matters (an (N, T) array ravels to the same environment-major order)
     if np.asarray(out["obs"]).reshape(-1).tolist() != [x["obs"] for x in fl]:
-        probs.add("ppo.collect_trajectories:layout", f"observations {np.asarray(out['obs']).reshape(-1).tolist()} are not environment-major {[x['obs'] for x in fl]}")
-    expect_exact(probs, lkey, "rewards (environment-major flat)", out["rew"], [x["rew"] for x in fl])
-    expect_exact(probs, lkey, "next values (environment-major flat)", out["nv"], [x["nv"] for x in fl])
-    if np.asarray(out["term"]).shape != (n,) or np.asarray(out["term"]).astype(int).tolist() != [x["term"] for x in fl]:
-        probs.add(lkey, f"terminated flags {np.asarray(out['term']).tolist()} (shape {np.asarray(out['term']).shape}) vs {[x['term'] for x in fl]}")
+        probs.add(lkey, f"observations {np.asarray(out['obs']).reshape(-1).tolist()} are not environment-major {[x['obs'] for x in fl]}")
+    expect_exact(probs, lkey, "rewards (environment-major flat)", out["rew"], [x["rew"] for x in fl], ravel=True)
+    expect_exact(probs, lkey, "next values (environment-major flat)", out["nv"], [x["nv"] for x in fl], ravel=True)
+    if np.asarray(out["term"]).reshape(-1).astype(int).tolist() != [x["term"] for x in fl]:
+        probs.add(lkey, f"terminated flags {np.asarray(out['term']).tolist()} vs {[x['term'] for x in fl]}")
     if "update_error" in out:
-        probs.add(lkey if single else "update_ppo:raises", f"update_ppo on the collected rollout: {out['update_error']}")
+        if single:
+            shapes = {k: np.asarray(out[k]).shape for k in ("rew", "term", "nv")}
+            probs.add("ppo.collect_trajectories:single_transition_squeezed",
+                      f"rollout of one step of one environment is squeezed to 0-d arrays {shapes}; update_ppo on it: {out['update_error']}")
+        else:
+            probs.add("update_ppo:raises", f"update_ppo on the collected rollout: {out['update_error']}")
         return
     G, C, g, l = ppo_constants()
     adv, ret = out["adv"], out["ret"]
